@@ -14,3 +14,5 @@ import TeosVerif.Props.C03
 #print axioms Teos.C03.shrinking_update_refund_precedes_row
 #print axioms Teos.C03.lkb_written_last
 #print axioms Teos.C03.partial_poll_records_undelivered_tip
+#print axioms Teos.C03.no_dangling_records_ever
+#print axioms Teos.C03.restart_is_consistent
